@@ -134,11 +134,22 @@ def impl_oracle(c):
         what = "the process crashed: %s" % c["crash"][:200]
         if c["stream"] == "behind":
             what += " -- calls that had passed the shutdown check were queued behind the shutdown request"
+        if c["stream"] == "page":
+            what += " -- tunnel reads into windows of one scratch page"
         if c["stream"] == "stress":
             what += " -- 64 goroutines calling Hello in a loop while the transport was shut down under them"
         return [("crash", what)]
     if c.get("hang"):
         out.append(("hang", "no response within 10 s: %s" % c["hang"]))
+    if c["stream"] == "page":
+        for o in c.get("page", []):
+            if o.get("bad"):
+                out.append(("reply-wrote-outside-callers-buffer",
+                            "tunnel reads into neighbouring windows of one scratch page (offset, len, cap) %s, replies "
+                            "of %s bytes answered in the order %s: %s"
+                            % (o["windows"], o["replies"], o["order"], o["bad"])))
+                break
+        return out
     if c["stream"] == "stress":
         for k, nk in sorted((c.get("stress") or {}).items()):
             if k not in ("ok", "alreadyshutdown", "eof"):
@@ -249,7 +260,7 @@ def run(ck):
     shrunk = set()
     for c in cases:
         nframes = len(c.get("frames", []))
-        trivial = len(c.get("callers", [])) <= 1 and nframes <= 1 and c["stream"] != "stress"
+        trivial = len(c.get("callers", [])) <= 1 and nframes <= 1 and c["stream"] not in ("stress", "page")
         # (the key does not depend on the order in which concurrent callers reached the wire)
         ck.count(c["stream"], key=json.dumps([c["steps"], [(x["k"], x["res"]) for x in c["callers"]]],
                                              sort_keys=True), trivial=trivial)
@@ -274,7 +285,8 @@ def run(ck):
     model_ok = all(built.get(x) for x in MODEL)
     ck.coverage["stress_calls"] = {k: sum((c.get("stress") or {}).get(k, 0) for c in cases if c["stream"] == "stress")
                                    for k in ("ok", "alreadyshutdown", "eof")}
-    cases = [c for c in cases if c["stream"] != "stress"]       # (no history to replay)
+    ck.coverage["page_rounds"] = sum(len(c.get("page") or []) for c in cases if c["stream"] == "page")
+    cases = [c for c in cases if c["stream"] not in ("stress", "page")]       # (no history to replay)
     if cases and model_ok:
         from concurrent.futures import ThreadPoolExecutor
         shard = 60 if not ck.thorough else 250
@@ -301,7 +313,9 @@ def run(ck):
         for k, (rc, out) in results:
             got = vlib.parse_coq_list_of_nat(out, "M") if rc == 0 else None
             if got is None:
-                ck.broken.append({"what": "correspondence evaluation failed", "detail": out[-1500:]})
+                ck.broken.append({"what": "correspondence evaluation failed",
+                                  "detail": "coqc rc=%s: %s" % (rc, (out or "").strip()[-1500:] or
+                                                                "(coqc printed nothing: killed by the time-out or out of memory)")})
                 break
             mism += [k + nsh * i for i in got]
             for t in vlib.parse_coq_list_of_nat(out, "T") or []:
@@ -338,7 +352,11 @@ def run(ck):
              "are stopped before the enqueue (a context whose first Done() waits), the shutdown request is issued and "
              "reaches the peer, the calls are let into the queue BEHIND it: serve must complete each once with "
              "errAlreadyShutdown and not send it; plus a stress case: 64 goroutines calling Hello in a loop against a "
-             "peer that answers everything while the transport is shut down, 150 rounds; ctx = older calls "
+             "peer that answers everything while the transport is shut down, 150 rounds; plus a caller-memory case (page): "
+             "2-4 tunnel reads outstanding on one channel whose buffers are neighbouring windows of one sentinel-filled "
+             "scratch page, each a sub-slice with spare capacity reaching into what lies behind it; well-formed replies "
+             "shorter than / as long as / longer than len (within and beyond cap) in any order; after every reply the "
+             "whole page is compared with what it may hold, 24 rounds; ctx = older calls "
              "(mostly including the first call of the transport) left outstanding while contexts of younger calls end at "
              "every stage: calls issued with a finished context (about half still get queued and are sent), contexts "
              "ending in the queue (serve held at its schedule point after taking a call), between the request's write "
